@@ -9,6 +9,8 @@ open Driver Driver.CodecIO GilVerif.Codec GilVerif.Model.C13
     paths <fmt> <dst> <file>                            img <img> | view <img> <canary> | any <type> <img> | scan <img> | info <w> <h> <depth>
     conv  <fmt> <nat> <dst> <tlx> <tly> <dx> <dy> <file>  nat <img> | conv <img> | ref <img> | cview <img> <canary>
     small <fmt> <dst> <vw> <vh> <tlx> <tly> <dx> <dy> <file>   <err:io|ok> <canary>
+    skips <fmt> <dst> <pattern> <file>                  img <img> | full ok|err:io | sk <it==end> <row>... | sk err:io
+          pattern letters: d = *it; ++it   D = *it; *it; ++it   s = ++it (the row is never dereferenced: reader.skip)
   fmt: bmp | bmprle (bmp whose reader is run in a child: it may overrun) | pnm | targa;  dst / nat: gray1 | gray8 | rgb8 | rgba8
 -/
 
@@ -158,6 +160,31 @@ def scanAll (fmt dst : String) (file : Bytes) : Obs :=
       else obsOfRes rgb8 (pnmRead rgb8 true true file Settings.full)
   | _ => .err
 
+/-- `skips`: the scanline iterator driven by a pattern; (it == end, dereferenced rows) or none = the reader refuses the variant.
+    pnm byte rows: the stream model (`pnmBinScanReader` / `pnmTextScanReader` under `itRun`); the readers that seek to every row
+    (bmp, targa) and P4: the rows of `scanAll` at the dereferenced positions (C13_skip_pattern_bmp / _targa) -/
+def skipsModel (fmt dst : String) (pat : String) (file : Bytes) : Option (Bool × List Bytes) :=
+  let ops := patternOps pat.toList
+  let viaScanAll : Option (Bool × List Bytes) :=
+    match scanAll fmt dst file with
+    | .ok f =>
+      let rows := chunk (f.w * chanCount dst) f.h f.px
+      some (decide (pat.length = f.h), (derefPositions 0 ops).map fun p => rows.getD p [])
+    | _ => none
+  if fmt = "pnm" then
+    match pnmReadHeader file with
+    | none => none
+    | some (info, data) =>
+      let sl := pnmScanline info.type info.width
+      if info.type = 5 ∨ info.type = 6 then
+        let rd := pnmBinScanReader sl
+        some (decide (itPos rd (ItState.init [] data) ops = info.height), (itRun rd (ItState.init [] data) ops).map (·.2))
+      else if info.type = 1 ∨ info.type = 2 ∨ info.type = 3 then
+        let rd := pnmTextScanReader info.maxValue sl
+        some (decide (itPos rd (ItState.init [] data) ops = info.height), (itRun rd (ItState.init [] data) ops).map (·.2))
+      else viaScanAll
+  else viaScanAll
+
 def infoOf (fmt : String) (file : Bytes) : String :=
   match fmt with
   | "bmp" | "bmprle" | "bmprlef" => match bmpReadHeader file with
@@ -192,6 +219,16 @@ def modelRaw (line : String) : String :=
           | _ => "none err:io")
       | none => "none err:io"
     "img " ++ img.show ++ " | view " ++ img.show ++ " canary-ok | any " ++ any ++ " | scan " ++ (scanAll fmt dst bs).show ++ " | info " ++ infoOf fmt bs
+  | ["skips", fmt, dst, pat, file] =>
+    let bs := parseHex file
+    let img := readNative fmt dst bs Settings.full
+    let full := match scanAll fmt dst bs with
+      | .ok _ => "ok"
+      | _ => "err:io"
+    let sk := match skipsModel fmt dst pat bs with
+      | some (e, rows) => (if e then "1" else "0") ++ String.join (rows.map fun r => " " ++ hexOf r)
+      | none => "err:io"
+    "img " ++ img.show ++ " | full " ++ full ++ " | sk " ++ sk
   | ["conv", fmt, nat, dst, tlx, tly, dx, dy, file] =>
     match ints [tlx, tly, dx, dy], kindOf nat, kindOf dst with
     | some [tlx, tly, dx, dy], some kn, some kd =>
@@ -245,6 +282,23 @@ def cropFlat (nch : Nat) (tlx tly dx dy : Nat) (f : Flat) : Flat :=
   let rows := (rows.drop tly).take dy
   ⟨dx, dy, rows.flatMap fun r => (r.drop (tlx * nch)).take (dx * nch)⟩
 
+/-- Spec of the skip clause: every row the iterator hands out is that row of read_image; a pattern works where the plain walk works;
+    the iterator equals end() exactly after `height` increments.  `nch` = bytes per pixel of the observation -/
+def judgeSkips (nch : Nat) (pat : String) (parts : List (List String)) (obs : String) : String :=
+  let fail (s : String) := "fail " ++ s
+  match parts with
+  | [("img" :: i), ["full", f], ("sk" :: sk)] =>
+    match parseObs i, sk with
+    | some img, ["err:io"] => if f = "ok" ∧ img ≠ .err then fail "scanline-skip-pattern-fails-where-the-plain-walk-works" else "ok"
+    | some (.ok fl), e :: rows =>
+      let want := (derefPositions 0 (patternOps pat.toList)).map fun p => (chunk (fl.w * nch) fl.h fl.px).getD p []
+      if rows.map parseHex ≠ want then fail "scanline-rows-after-skips-equal-full-read"
+      else if decide (e = "1") ≠ decide (pat.length = fl.h) then fail "scanline-iterator-end"
+      else "ok"
+    | some _, _ :: _ => "ok"          -- read_image refuses the file: nothing to compare with
+    | _, _ => fail ("unreadable-observation:" ++ (obs.take 60).toString)
+  | _ => fail ("shape:" ++ (obs.take 60).toString)
+
 def judge (op obs : String) : String :=
   let fail (s : String) := "fail " ++ s
   let parts := splitBars (words obs)
@@ -289,6 +343,8 @@ def judge (op obs : String) : String :=
           | _, _ => "ok"
       | _, _, _, _ => fail ("unreadable-observation:" ++ (obs.take 60).toString)
     | _ => fail ("shape:" ++ (obs.take 60).toString)
+  | ["skips", _fmt, dst, pat, _file] => judgeSkips (chanCount dst) pat parts obs
+  | ["xskips", _fmt, _pix, bpp, _w, _h, pat, _src] => judgeSkips (bpp.toNat?.getD 0) pat parts obs
   | ["conv", _fmt, _nat, _dst, _tlx, _tly, _dx, _dy, _file] =>
     match parts with
     | [("nat" :: _), ("conv" :: c), ("ref" :: r), ("cview" :: cv)] =>
